@@ -85,6 +85,14 @@ class POpt(PV):
         self.is_none, self.ref = is_none, ref
 
 
+class PGhost(PV):
+    """ghost (specification-only) state of any z3 sort; never read or written by the subject's code"""
+    kind = "ghost"
+
+    def __init__(self, t):
+        self.t = t
+
+
 NONE_ADDR = -1     # dict.get() miss / None stored in an Int cell
 
 
@@ -191,6 +199,8 @@ def merge_val(c, a, b):
         raise MergeFail()
     if isinstance(a, PInt):
         return a if a.t.eq(b.t) else PInt(z3.If(c, a.t, b.t))
+    if isinstance(a, PGhost):
+        return a if a.t.eq(b.t) else PGhost(z3.If(c, a.t, b.t))
     if isinstance(a, PAny):
         return a if a.t.eq(b.t) else PAny(z3.If(c, a.t, b.t))
     if isinstance(a, PBool):
@@ -801,8 +811,7 @@ class PyExec:
     def apply_callee(self, st, con, args, n):
         e = Env()
         for nm, a in zip(con.params, args):
-            setattr(e, nm, a.t if isinstance(a, (PInt, PAny)) else a.addr if isinstance(a, PRef)
-                    else a.b if isinstance(a, PBool) else a)
+            setattr(e, nm, arg_term(a))
         if len(args) != len(con.params):
             raise StaleContract("call to %s with %d args, contract has %d" % (con.name, len(args), len(con.params)))
         h0 = st.heap.copy()
@@ -812,7 +821,18 @@ class PyExec:
         h1 = st.heap.copy()
         if con.modifies:
             for m in con.modifies(e):
-                if m[0] == "list":
+                if m[0] == "list-append":
+                    # append-only effect (the callee's own proved postcondition states: len grows, prefix unchanged);
+                    # encoded in the havoc itself so that callers need no quantifier instantiation for the frame
+                    ol = h1.len(m[1])
+                    oa = h1.els(m[1])
+                    nl, fa = self.fresh("len"), self.fresh("els", ARR_II)
+                    st.path.append(nl >= ol)
+                    i = z3.Int("i!app")
+                    na = z3.Lambda([i], z3.If(i < ol, z3.Select(oa, i), z3.Select(fa, i)))
+                    h1.set("list.len", z3.Store(h1.get("list.len"), m[1], nl))
+                    h1.set("list.el", z3.Store(h1.get("list.el"), m[1], na))
+                elif m[0] == "list":
                     nl, na = self.fresh("len"), self.fresh("els", ARR_II)
                     h1.set("list.len", z3.Store(h1.get("list.len"), m[1], nl))
                     h1.set("list.el", z3.Store(h1.get("list.el"), m[1], na))
@@ -982,6 +1002,9 @@ class PyExec:
         return [("normal", st, None)]
 
     def assign_name(self, st, name, v, node):
+        lt = self.opt.get("local_types", {}).get(name)
+        if lt and isinstance(v, PRef) and v.cls == "list":
+            v = PRef(lt, v.addr)         # sidecar typing of a local container (e.g. a list used as a string builder)
         t = self.ann.get(name)
         if t == "bint":
             v = PBool(self.truth(st, v, node))
@@ -1160,10 +1183,12 @@ class PyExec:
     def loop_inv(self, st, n, ordinal, inv, cond, body, pre_body, extra_mod=()):
         """inv: object with holds(ex, st, st0) -> [(label, Bool)], optional decreases(ex, st), optional
         modifies_heap (list of component names; default: all components touched syntactically = all)."""
+        if hasattr(inv, "ghost_init"):
+            inv.ghost_init(self, st)          # ghost state: lives in st.vars as PGhost, assigned only by ghost code
         st0 = st.copy()
         for label, f in inv.holds(self, st, st0):
             self.oblige(st, "inv", "entry.%s" % label, f, n)
-        mod = assigned_names(body) | set(extra_mod)
+        mod = assigned_names(body) | set(extra_mod) | set(getattr(inv, "ghost_names", ()))
         h = st.copy()
         for name in mod:
             old = h.vars.get(name)
@@ -1198,6 +1223,8 @@ class PyExec:
         for o in self.exec_block(sb, body):
             if o[0] in ("normal", "continue"):
                 s2 = o[1]
+                if hasattr(inv, "ghost_step"):
+                    inv.ghost_step(self, s2)
                 for label, f in inv.holds(self, s2, st0):
                     self.oblige(s2, "inv", "step.%s" % label, f, n)
                 if m0 is not None:
@@ -1210,6 +1237,8 @@ class PyExec:
 
     def havoc_val(self, old, name, ordinal):
         tag = "%s@loop%d" % (name, ordinal)
+        if isinstance(old, PGhost):
+            return PGhost(self.fresh(tag, old.t.sort()))
         if isinstance(old, PInt):
             return PInt(self.fresh(tag))
         if isinstance(old, PAny):
@@ -1259,6 +1288,21 @@ class PyExec:
     def param_names(self):
         fa = self.func.args
         return [a.arg for a in fa.posonlyargs + fa.args]
+
+
+def arg_term(a):
+    """value -> what contract lambdas see: Int/Bool term, address, tuple of those"""
+    if isinstance(a, (PInt, PAny)):
+        return a.t
+    if isinstance(a, PRef):
+        return a.addr
+    if isinstance(a, PBool):
+        return a.b
+    if isinstance(a, PTuple):
+        return tuple(arg_term(x) for x in a.items)
+    if isinstance(a, PNone):
+        return None
+    return a
 
 
 def find_function(tree, qualname):
